@@ -217,6 +217,10 @@ def _unary_contract(key):
         @c.ensures('unary-plus-is-the-identity', 'P')
         def _(a, result):
             return result == (0 if a is sh.EMPTY else a) and (isinstance(result, bool) == isinstance(a, bool))
+
+        @c.known_region('KF-C02-4', 'unary-plus-is-the-identity')
+        def _(a):
+            return isinstance(a, int) and not isinstance(a, bool) and not (-2 ** 63 <= a < 2 ** 64)
     else:
         @c.ensures('non-numeric-text-gives-VALUE', 'P')
         def _(a, result):
